@@ -152,6 +152,22 @@ def provision_margin(alg, needed, last_index, r, t, Nn, t_before_idx=True):
     return sp.simplify(needed_real(needed) - last_index - adv)
 
 
+def specialise(e, variant):
+    """resolve every `match self.<field> { Enum::V => a, .. }` inside e for one variant of the interpolation enum"""
+    if isinstance(e, list):
+        return [specialise(x, variant) for x in e]
+    if not isinstance(e, dict):
+        return e
+    if e.get("k") == "match" and ir.is_self_field(e["e"]):
+        for arm in e["arms"]:
+            names = [p.get("path", "").split("::")[-1] if p.get("k") == "ppath" else ("_" if p.get("k") == "pwild" else "?")
+                     for p in (arm["pat"]["cases"] if arm["pat"].get("k") == "por" else [arm["pat"]])]
+            if (variant in names or "_" in names) and arm.get("guard") is None:
+                return specialise(arm["body"], variant)
+        return e
+    return {k: (specialise(v, variant) if isinstance(v, (dict, list)) and k != "ln" else v) for k, v in e.items()}
+
+
 def rule_provision(rep, tname, m):
     facts = rep.ctx.facts
     R = "R-C06-provision"
@@ -207,6 +223,28 @@ def rule_provision(rep, tname, m):
         key = "%s::%s" % (tname, label)
         if ni is None:
             rep.ob(R, key, False, "needed_input_size is not recomputed here although ratio / chunk size / position changed", loc(fn))
+            continue
+        if any(x.get("k") == "match" for x in walk(ni)):
+            # the request depends on the interpolation variant: decide it per variant against the reads of that variant's own arm
+            from C03 import arm_right_reach
+            allok = True
+            details = []
+            for a in m["arms"]:
+                niv = specialise(ni, a["variant"])
+                try:
+                    vv = alg.conv(niv)
+                    mg = provision_margin(alg, vv, alg.conv(li), alg.conv(rr), alg.conv(tt), alg.conv(nn), tb)
+                    need = arm_right_reach(a, alg, sp.Integer(0))
+                    # needed = ceil(p + c) must exceed the highest index read, floor(p) + need, for every p (p integral included): c ≥ need + 1
+                    d = sp.simplify(mg - (need + 1)) if need is not None else None
+                    okv = d is not None and not (d.free_symbols) and bool(d >= 0)
+                except Exception as ex:      # noqa: BLE001
+                    okv, mg, need = False, "?", "? (%s)" % ex
+                allok = allok and okv
+                details.append("%s: request − position = %s, highest sample offset read = %s%s" % (a["variant"], mg, need, "" if okv else "  <-- too small"))
+            rep.ob(R, key, allok, "needed_input_size depends on the interpolation variant; per variant the request must exceed the highest index its arm reads "
+                                  "(request − (last_index + advance) ≥ offset + 1, the +1 because floor(p) = p when the position is integral): " + "; ".join(details),
+                   loc(fn), sample={"site": key, "per_variant": details})
             continue
         v = alg.conv(ni)
         # saturating cast: `(x).ceil() as usize + c` clamps a negative x (x contains the negative carried position) to 0 *before* the
